@@ -17,7 +17,7 @@
 //!   Observation: (tobs <result> <return-ms> <socket-removed> (c <accepted-ms> <complete> <closed-ms>)*)
 //!     result = ok | timeout | err
 use crate::rng::Rng;
-use crate::suites::wire::{self, build_service_opts, configs, dec_table, gen_malformed, gen_request, split_replies, stream_of, SvcCfg};
+use crate::suites::wire::{self, build_service_opts, configs, dec_table, gen_malformed, gen_request, socket_configs, split_replies, stream_of, SvcCfg};
 use crate::sx::{self, Sx};
 use crate::{Case, Ctx, Suite};
 use std::io::{Read, Write};
@@ -113,7 +113,18 @@ fn split_up(bytes: &[u8]) -> (Vec<u8>, Vec<u8>) {
     let mut p = 0;
     loop {
         if bytes[p..].starts_with(b"UP:") {
-            return (bytes[..p].to_vec(), bytes[p + 3..].to_vec());
+            // a segment-wise handler echoes several times: drop every marker
+            let mut up = Vec::new();
+            let mut q = p;
+            while q < bytes.len() {
+                if bytes[q..].starts_with(b"UP:") {
+                    q += 3;
+                } else {
+                    up.push(bytes[q]);
+                    q += 1;
+                }
+            }
+            return (bytes[..p].to_vec(), up);
         }
         match bytes[p..].iter().position(|b| *b == 0) {
             Some(i) => p += i + 1,
@@ -203,7 +214,12 @@ fn run_conc(l: &[Sx]) -> Sx {
             let mut got = Vec::new();
             let mut buf = [0u8; 65536];
             let mut closed = false;
+            let deadline = Instant::now() + Duration::from_secs(20);
             loop {
+                // a server that never stops writing is an observation, not a reason to eat all memory
+                if got.len() > (4 << 20) || Instant::now() > deadline {
+                    break;
+                }
                 match conn.read(&mut buf) {
                     Ok(0) => {
                         closed = true;
@@ -392,11 +408,12 @@ fn gen_conc(rng: &mut Rng, cfgs: &[SvcCfg], tok: &mut usize, nclients: usize, tr
             }
         }
         let mut total = stream_of(&reqs);
+        let mut seg_payload: Option<Vec<Vec<u8>>> = None;
         if kind == "dropmid" && total.len() > 3 {
             let cut = rng.range(1, total.len() - 1);
             total.truncate(cut);
         }
-        if rng.chance(1, 8) {
+        if rng.chance(1, 8) || cfg.scripts.iter().any(|n| n == "up.seg") {
             // payload for an upgraded handler right behind an upgrade request, same segment
             *tok += 1;
             if !cfg.scripts.is_empty() {
@@ -407,6 +424,10 @@ fn gen_conc(rng: &mut Rng, cfgs: &[SvcCfg], tok: &mut usize, nclients: usize, tr
                 total.push(0);
                 total.extend_from_slice(format!("payload-{}-\n\0binary", *tok).as_bytes());
                 tags.push("upgrade-with-payload".into());
+                if cfg.scripts.iter().any(|n| n == "up.seg") {
+                    seg_payload = Some(vec![format!("second-{}\n", *tok).into_bytes(), format!("third-{}", *tok).into_bytes()]);
+                    tags.push("upgrade-segment-wise".into());
+                }
             }
         }
         let mut kind = kind;
@@ -434,6 +455,15 @@ fn gen_conc(rng: &mut Rng, cfgs: &[SvcCfg], tok: &mut usize, nclients: usize, tr
             let cuts: Vec<usize> = (0..k).map(|_| rng.below(total.len() + 1)).collect();
             wire::cut(&total, &cuts)
         };
+        let mut chunks = chunks;
+        if let Some(extra) = seg_payload {
+            if kind != "idle" {
+                // first everything up to and including the first payload in ONE segment, then the rest slowly
+                chunks = vec![total.clone()];
+                chunks.extend(extra);
+                kind = "slow";
+            }
+        }
         let total_sent: Vec<u8> = chunks.concat();
         clients.push(client_sx(kind, rng.below(20), &chunks, &total_sent));
     }
@@ -473,7 +503,7 @@ impl Suite for ListenSuite {
 
     fn generate(&self, ctx: &Ctx) -> Vec<Case> {
         let mut rng = Rng::new(ctx.seed ^ 0x6c697374);
-        let cfgs = configs();
+        let cfgs = socket_configs();
         let mut cases = Vec::new();
         if ctx.prop == "C15" {
             // configuration x history matrix of the property
@@ -487,6 +517,8 @@ impl Suite for ListenSuite {
                 cases.push(timing_case(idle, None, 1, 4, &[(350, idle * 1000 - 20)], "closing-at-the-deadline"));
                 cases.push(timing_case(idle, Some(450), 1, 4, &[(150, 1200)], "flag-set-while-connection-open"));
             }
+            cases.push(timing_case(0, Some(450), 1, 4, &[(150, 1200), (1000, 100)], "flag-set-while-open-then-late-arrival"));
+            cases.push(timing_case(2, Some(450), 2, 4, &[(150, 1200), (1000, 100)], "flag-set-while-open-then-late-arrival"));
             cases.push(timing_case(0, Some(450), 1, 4, &[], "flag-only"));
             cases.push(timing_case(0, Some(0), 1, 4, &[], "flag-set-before-start"));
             cases.push(timing_case(2, Some(450), 1, 4, &[], "flag-before-timeout"));
